@@ -22,6 +22,10 @@ def main(tier):
     prod = funcs.produce("drv_down", [[seed, sh, ns, 16 if q else 1] for sh in range(ns)])
     funcs.san_failures(chk, prod, "down")
     files = [p for p, n, rc, err in prod if n > 0]
+    # every eighth sweep again with the programs compiled for an unsigned-char platform (-funsigned-char)
+    prod_u = funcs.produce("drv_down", [[seed + 1, sh, ns, 16 if q else 4] for sh in range(0, ns, 8)], flavour="uchar")
+    funcs.san_failures(chk, prod_u, "down-uchar")
+    files += [p for p, n, rc, err in prod_u if n > 0]
     _, dn = funcs.survey(chk, files, lambda ev: ev.get("e") == "Down" and ev.get("glen", 0) > 2)
     out = funcs.judge_files(chk, "TraceDownstream", "TraceDownstream.cfg", files, "down",
                             sigfn=lambda ev: "qt%s:%s:%s" % (ev.get("qt"), ev.get("codec"),
